@@ -187,6 +187,11 @@ def run_case(c, d):
         except Exception as exc:
             c.exception('lpc', exc, dict(feats, fn='lpc'))
             a_lpc = None
+        if d.get('i', 0) % 5 == 0 and 3 <= d['N'] <= 31:
+            try:
+                spectrum.lpc(xf.copy())              # default order N-1 (judged by the contract)
+            except Exception as exc:
+                c.exception('lpc', exc, dict(feats, fn='lpc', order='default'))
         if a_lpc is not None:
             r = refs.biased_ac(xf, order)
             lam = np.linalg.eigvalsh(refs.herm_toeplitz(r))
